@@ -116,6 +116,14 @@ def templates(cfg):
     SB = [("t", {"a": INT, "p": BOOL, "g": INT})]
     out.append(Template("c05.typed.shift_bool_fwd", SB, lambda p, t: t >> p.mutate(y=t.p.shift(-1, arrange=[t.a.nulls_last(), t.g.nulls_last()]), z=t.p.shift(1, arrange=[t.a.nulls_last(), t.g.nulls_last()])), props=("C05",)))
     out.append(Template("c05.typed.shift_bool_fill", SB, lambda p, t: t >> p.mutate(y=t.p.shift(-1, False, arrange=[t.a.nulls_last(), t.g.nulls_last()], partition_by=t.g)), props=("C05",)))
+    # two order keys computed from the same column (polars names expressions after their root column)
+    S2 = [("t", {"a": INT, "b": INT, "g": INT})]
+    out.append(Template("c05.samecol.row_number_part", S2, lambda p, t: t >> p.mutate(r=p.row_number(arrange=[(t.a % 2).nulls_last(), t.a.descending().nulls_last(), t.b.nulls_last()], partition_by=t.g)), props=("C05",), nmax=3, int_bound=16, tags=("nonlinear",)))
+    out.append(Template("c05.samecol.shift_grouped", S2, lambda p, t: t >> p.group_by(t.g) >> p.mutate(r=t.b.shift(1, arrange=[(t.a + t.b).nulls_last(), t.a.nulls_last(), t.b.nulls_last()])) >> p.ungroup(), props=("C05",), nmax=3))
+    out.append(Template("c05.samecol.rank", S2, lambda p, t: t >> p.mutate(r=p.rank(arrange=[(t.a * 0 + 1).nulls_last(), t.a.nulls_last()]), d=p.dense_rank(arrange=[t.a.nulls_last(), (-t.a).nulls_last()])), props=("C05",), nmax=3))
+    out.append(Template("c05.samecol.rank_part", S2, lambda p, t: t >> p.mutate(r=p.rank(arrange=[(t.a - t.b).nulls_last(), t.a.nulls_last()], partition_by=t.g)), props=("C05",), nmax=3))
+    out.append(Template("c05.samecol.cum_sum_part", S2, lambda p, t: t >> p.mutate(r=t.b.cum_sum(arrange=[t.a.nulls_last(), (t.a + 1).descending().nulls_last(), t.b.nulls_last(), t.g.nulls_last()], partition_by=t.g)), props=("C05",), nmax=3))
+    out.append(Template("c05.samecol.dup_key", S2, lambda p, t: t >> p.mutate(r=p.row_number(arrange=[t.a.nulls_last(), t.b.nulls_last(), t.a.descending().nulls_last()], partition_by=t.g)), props=("C05",), nmax=3))
     out.append(Template("c05.typed.bool_sum_nopart", SB, lambda p, t: t >> p.mutate(s=t.p.sum(), s1=t.p.sum() + 1, e=(t.a > 0).sum()), props=("C05",)))
     out.append(Template("c05.typed.bool_sum_grouped", SB, lambda p, t: t >> p.group_by(t.g) >> p.mutate(s=t.p.sum(), m=t.p.max()) >> p.ungroup(), props=("C05",)))
     out.append(Template("c05.typed.bool_sum_summarize", SB, lambda p, t: t >> p.group_by(t.g) >> p.summarize(s=t.p.sum(), e=(t.a > 0).sum()), props=("C05",)))
